@@ -111,6 +111,16 @@ CHECKS = {
              "only bundled drawings and structure-preserving variants of them (no generator of new drawings).",
         technique="metamorphic testing (mirror / permutation / translation / renumbering) + differential testing against an independent parser",
     ),
+    "C14": dict(
+        category="exploration",
+        text="Model-based stateful testing: ensembles built through six constructor routes, then generated op lists (append of Molecule / Structure / CartesianGeometry, extend "
+             "by list / ensemble / iterator, scale, translate 1-D/2-D, rotate, writes through ens[i], five iteration patterns incl. nested / interleaved / zip, slices, "
+             "per-conformer dumps read back, serialisation via v2 codec / pickle / library) are interpreted on the ensemble and on three numpy arrays; rectangularity and "
+             "view consistency are checked after every step.",
+        design_ref="DESIGN.md section 5, C14",
+        note="Appended geometries have the ensemble's atom count; a new conformer's weight may be any real number; ConformerEnsemble(molecule) coordinate values not asserted.",
+        technique="stateful model-based testing (Hypothesis op lists) against a numpy reference model",
+    ),
     "C02": dict(
         category="exploration",
         text="Bounded-exhaustive (all op sequences up to length 4/5 over a 14-letter alphabet on two raw UKVFile handles) plus random "
